@@ -14,7 +14,8 @@ RULE = ("projects of 1-6 classes mixing controllers (@RestController / @Controll
         "value= or bare) and non-controllers carrying mapping annotations, handlers in shorthand / value= / method= / "
         "bare forms for Get/Post/Put/Delete/RequestMapping, 0-4 parameters with @RequestBody at any position, plain "
         "methods interleaved (also as first method), any file order; non-trivial = a controller with >= 1 handler; "
-        "distinct = distinct input")
+        "distinct = distinct input"
+        '; every other project is observed through `coca analysis -p DIR` + `coca api -f -p DIR -d coca_reporter/deps.json`: the entries of apis.json that have their row in api.csv')
 TRUSTED_BASE = C01.TRUSTED_BASE
 ASSUMPTIONS = ["mapping paths are string literals; controllers implement no @ServiceMethod interface"]
 
